@@ -1,5 +1,6 @@
 /- line-protocol driver for the C09 model (Mathlib-free).
 
+   delay <ticks>                                 -> ok   (remove_tunnel_delay of the nodes created afterwards … of all nodes)
    node <label> <start>                          -> ok
    <label> <time> mk <id> <goal> <peer> <cands> <ident>
    <label> <time> cell <id> <early> <plain> <ok> <body…>
@@ -17,7 +18,8 @@ import Ipv8.Base.Proto
 import Ipv8.C09.Model
 open Ipv8 Ipv8.C09
 
-abbrev St := List (Nat × Node)
+/-- configuration (the generated one unless a `delay` line overrode remove_tunnel_delay) and the nodes -/
+abbrev St := Cfg × List (Nat × Node)
 
 def bool? (s : String) : Option Bool :=
   if s == "1" then some true else if s == "0" then some false else none
@@ -105,27 +107,31 @@ def showNode (s : Node) : String :=
   "C[" ++ ",".intercalate ((live s.circuits).map showC) ++ "] R[" ++ ",".intercalate ((live s.relays).map showR) ++
   "] X[" ++ ",".intercalate ((live s.exits).map showX) ++ s!"] L{s.leaked} " ++ showOuts s.outs
 
-def setNode (st : St) (k : Nat) (n : Node) : St := (k, n) :: st.filter (fun p => p.1 != k)
+def setNode (st : St) (k : Nat) (n : Node) : St := (st.1, (k, n) :: st.2.filter (fun p => p.1 != k))
 
 def step (st : St) (toks : List String) : St × String :=
   match toks with
+  | ["delay", d] =>
+    match d.toNat? with
+    | some d => (({ st.1 with delay := d }, st.2), "ok")
+    | none => (st, "bad-op")
   | ["node", l, t] =>
     match l.toNat?, t.toNat? with
-    | some l, some t => (setNode st l (Node.init Gen.cfg t), "ok")
+    | some l, some t => (setNode st l (Node.init st.1 t), "ok")
     | _, _ => (st, "bad-op")
   | l :: t :: rest =>
     match l.toNat?, t.toNat? with
     | some l, some t =>
-      match st.find? (fun p => p.1 == l) with
+      match st.2.find? (fun p => p.1 == l) with
       | some (_, n) =>
-        let n := n.advance Gen.cfg t
+        let n := n.advance st.1 t
         if rest == ["obs"] then
           (setNode st l { n with outs := [] }, showNode n)
         else match ev? rest with
-          | some ev => (setNode st l (n.step Gen.cfg ev), "ok")
+          | some ev => (setNode st l (n.step st.1 ev), "ok")
           | none => (st, "bad-op")
       | none => (st, "no-node")
     | _, _ => (st, "bad-op")
   | _ => (st, "bad-op")
 
-def main : IO Unit := Proto.run ([] : St) step
+def main : IO Unit := Proto.run ((Gen.cfg, []) : St) step
